@@ -8,7 +8,7 @@
    [msg_wf] = what the Rust types guarantee plus "node lists are of the right family";
    [msg_small] = every byte string of the message is shorter than 2^64 (true of any Vec). *)
 From BT Require Import model.Prelude model.Krpc.
-From BT Require Import proofs.Bencode_Facts proofs.Compact_Facts proofs.Krpc_Facts proofs.Krpc_Decode.
+From BT Require Import proofs.Bencode_Facts proofs.Compact_Facts proofs.Krpc_Facts proofs.Krpc_Decode proofs.Krpc_Reject.
 From Coq Require Import Permutation.
 
 (* The encoder emits exactly the canonical bencoding of the BEP dictionary: sorted keys,
@@ -66,11 +66,43 @@ Theorem c13_reorder_unknown_keys : forall (m : msg) (sub : bvalue) (top' : list 
   decode_msg (ser (BDict top') ++ trailing) = Some m.
 Proof. exact decode_reordered. Qed.
 
+(* What is refused.  [query_top tid es q] is the query dictionary {a: es, q: q, t: tid, y: q}.
+   (1) arguments that do not fit the named method: the canonical arguments of any query [rq] under
+       the name [q] of another method;
+   (2) an id-typed argument that is not 20 bytes -- `id` under any method, `target` under find_node,
+       `info_hash` under get_peers / announce_peer -- whatever else the argument dictionary holds,
+       in any order (so also with unknown keys);
+   (3) a response whose return values hold, behind a prefix of valid entries (in canonical order:
+       everything that sorts before the bad key) and in front of anything, an `id` that is not 20
+       bytes, a `nodes` / `nodes6` string whose length is not a multiple of 26 / 38, or a `values`
+       list with a peer string that is not 6 / 18 bytes (behind any number of good ones).
+   In every case: with or without trailing bytes; the tree must be representable and nest <= 32. *)
+Theorem c13_rejects :
+  (forall tid rq q qt trailing,
+     request_wf rq = true ->
+     find (fun kv => bytes_eqb q (fst kv)) rtype_variants = Some (q, qt) -> qt <> rtype_of rq ->
+     bv_wf (BDict (query_top tid (args_entries rq) q)) ->
+     decode_msg (ser (BDict (query_top tid (args_entries rq) q)) ++ trailing) = None) /\
+  (forall tid es q qt s k trailing,
+     find (fun kv => bytes_eqb q (fst kv)) rtype_variants = Some (q, qt) ->
+     In (k, BStr s) es -> length s <> 20%nat ->
+     (k = k_id \/ (k = k_target /\ qt = QFindNode) \/ (k = k_info_hash /\ (qt = QGetPeers \/ qt = QAnnouncePeer))) ->
+     bv_wf (BDict (query_top tid es q)) -> (vdepth (BDict (query_top tid es q)) <= 32)%nat ->
+     decode_msg (ser (BDict (query_top tid es q)) ++ trailing) = None) /\
+  (forall rs pre suf kv post top_post trailing,
+     response_wf rs = true -> resp_entries rs = pre ++ suf ->
+     ~ In (fst kv) (map fst pre) -> bad_entry kv ->
+     bv_wf (BDict ((k_r, BDict (pre ++ kv :: post)) :: top_post)) ->
+     (vdepth (BDict ((k_r, BDict (pre ++ kv :: post)) :: top_post)) <= 32)%nat ->
+     decode_msg (ser (BDict ((k_r, BDict (pre ++ kv :: post)) :: top_post)) ++ trailing) = None).
+Proof. exact (conj reject_qa_mismatch (conj reject_query_bad_id reject_response)). Qed.
+
 Print Assumptions c13_encode_canonical.
 Print Assumptions c13_encode_wrong_family.
 Print Assumptions c13_roundtrip.
 Print Assumptions c13_bencode_roundtrip.
 Print Assumptions c13_reorder_unknown_keys.
+Print Assumptions c13_rejects.
 
 (* ---- non-vacuity ---- *)
 Definition ex_id1 : N := be_to_N (bs "abcdefghij0123456789").
@@ -120,4 +152,27 @@ Proof.
   split; [vm_compute; repeat split; try reflexivity; discriminate|].
   split; [vm_compute; lia|].
   split; [vm_compute; reflexivity | vm_compute; discriminate].
+Qed.
+
+(* rejected: get_peers arguments under `ping`; a 19-byte target under find_node next to an unknown key;
+   a response with a good id and nodes, a 37-byte nodes6 string, then a token *)
+Example c13_rejects_nonvacuous :
+  let rq := GetPeers ex_id1 ex_id2 None in
+  let es := [(bs "x", BInt 0); (k_target, BStr (repeat 65 19)); (k_id, BStr (enc_id ex_id1))] in
+  let rs := mkResp ex_id1 [] [mkNodeh ex_id2 (mkAddr false 2130706433 6789)] [] None in
+  let r' := [(k_id, BStr (enc_id ex_id1)); (k_nodes, BStr (cat_nodes (r_nodes4 rs)))] ++ (k_nodes6, BStr (repeat 0 37)) :: [(k_token, BStr [])] in
+  (request_wf rq = true /\ find (fun kv => bytes_eqb s_ping (fst kv)) rtype_variants = Some (s_ping, QPing) /\
+   QPing <> rtype_of rq /\ bv_wf (BDict (query_top (bs "aa") (args_entries rq) s_ping)) /\
+   decode_msg (ser (BDict (query_top (bs "aa") (args_entries rq) s_ping))) = None) /\
+  (In (k_target, BStr (repeat 65 19)) es /\ bv_wf (BDict (query_top [] es s_find_node)) /\
+   decode_msg (ser (BDict (query_top [] es s_find_node))) = None /\
+   decode_msg (ser (BDict (query_top [] es s_ping))) <> None) /\
+  (response_wf rs = true /\ resp_entries rs = [(k_id, BStr (enc_id ex_id1)); (k_nodes, BStr (cat_nodes (r_nodes4 rs)))] ++ [] /\
+   bad_entry (k_nodes6, BStr (repeat 0 37)) /\
+   bv_wf (BDict [(k_r, BDict r'); (k_t, BStr (bs "aa")); (k_y, BStr k_r)]) /\
+   decode_msg (ser (BDict [(k_r, BDict r'); (k_t, BStr (bs "aa")); (k_y, BStr k_r)])) = None).
+Proof.
+  cbv zeta. repeat split; try (vm_compute; reflexivity); try (vm_compute; discriminate);
+    try (vm_compute; repeat split; reflexivity); try (vm_compute; auto).
+  constructor. vm_compute. discriminate.
 Qed.
